@@ -524,6 +524,11 @@ theorem good_boxes_rem {idx : Index} (hwf : idx.Wf) (id : MsgId) (toRem : List N
 theorem boxesOf_mem {idx : Index} {id : MsgId} {mb : Nat} : mb ∈ idx.boxesOf id ↔ mb < idx.boxes.length ∧ (idx.box mb).has id = true := by
   simp [Index.boxesOf]
 
+/-- the connector's `MessageDeleted` writes and queues what `MessageMailboxesUpdated(id, [])` does -/
+theorem connEffect_delete (idx : Index) (id : MsgId) : connEffect idx (.delete id) = connEffect idx (.boxes id []) := by
+  have hf : (idx.boxesOf id).filter (fun _ => true) = idx.boxesOf id := List.filter_eq_self.mpr (by simp)
+  simp [connEffect, hf]
+
 /-- **every connector-originated change delivers** -/
 theorem good_connEffect {idx : Index} (hwf : idx.Wf) (c : ConnOp) (hv : (SysOp.conn c).Valid) :
     Good idx (connEffect idx c).1 (connEffect idx c).2 := by
@@ -580,6 +585,13 @@ theorem good_connEffect {idx : Index} (hwf : idx.Wf) (c : ConnOp) (hv : (SysOp.c
       obtain ⟨us2, e2, g2⟩ := good_boxes_rem g1.2 id ((idx.boxesOf id).filter fun mb => !mbs.contains mb) pu
       rw [e2]
       exact g1.trans g2
+  | delete id =>
+    simp only [connEffect]
+    split
+    · exact Good.refl hwf
+    · obtain ⟨us2, e2, g2⟩ := good_boxes_rem hwf id (idx.boxesOf id) []
+      rw [e2]
+      exact g2
   | setFlag id flag on =>
     simp only [connEffect]
     split
